@@ -306,9 +306,9 @@ func runComputeSchedule(c *pcfg, quiet time.Duration, choose func(depth int, ena
 	var tr ptraceObs
 	depth := 0
 	expect := len(c.Base)
-	waitMax := 2 * time.Second
+	waitMax := time.Duration(timeoutScale) * 2 * time.Second
 	if c.hintBroken {
-		waitMax = 20 * time.Millisecond
+		waitMax = time.Duration(timeoutScale) * 20 * time.Millisecond
 	}
 	for {
 		// wait until as many attempts are parked as the harness's own reading of the table predicts (this only
@@ -379,7 +379,7 @@ func runComputeSchedule(c *pcfg, quiet time.Duration, choose func(depth int, ena
 		// attempt is let go: ComputePatches' receiving loop reports the receipt of every successful result
 		// (failed attempts leave no trace in the result list, their position does not matter).
 		if a := c.lookup(g.ids); a != nil && a.Err == 0 {
-			dl := time.Now().Add(time.Second)
+			dl := time.Now().Add(time.Duration(timeoutScale) * time.Second)
 			for {
 				r.mu.Lock()
 				ok := g.delivered
@@ -426,6 +426,38 @@ func (c *pcfg) expectedSpawn(ids []string) int {
 	return n
 }
 
+// confirmComputeTimeout: a run that timed out (stuck, or a delivery that was not seen) is only a candidate; the same
+// completion order is executed again, alone, at 20x the patience.  Returns the confirming run and whether the
+// timeout is confirmed.
+func confirmComputeTimeout(c *pcfg, quiet time.Duration, want [][]string) (ptraceObs, []obsPatch, bool) {
+	saved := c.hintBroken
+	c.hintBroken = false
+	timeoutScale = confirmScale
+	tr, fin, ok := runComputeSchedule(c, 4*quiet, func(depth int, en []string) int {
+		if depth >= len(want) {
+			return 0 // beyond the recorded prefix: any order will do
+		}
+		for i, k := range en {
+			if k == key(want[depth]) {
+				return i
+			}
+		}
+		return -1
+	})
+	timeoutScale = 1
+	c.hintBroken = saved
+	if !ok {
+		// the order could not be followed again: neither confirmed nor usable
+		loadInducedTimeouts++
+		return tr, nil, false
+	}
+	if tr.Stuck || tr.Unordered {
+		return tr, fin, true
+	}
+	loadInducedTimeouts++
+	return tr, fin, false
+}
+
 // exploreCompute enumerates every completion order of the configuration.
 func exploreCompute(c *pcfg, quiet time.Duration, limit int) *pcase {
 	pc := &pcase{Cfg: *c}
@@ -453,6 +485,14 @@ func exploreCompute(c *pcfg, quiet time.Duration, limit int) *pcase {
 			}
 			return stack[depth].idx
 		})
+		if ok && !diverged && (tr.Stuck || tr.Unordered) {
+			tr2, fin2, confirmed := confirmComputeTimeout(c, quiet, tr.Order)
+			if confirmed || fin2 != nil {
+				tr, fin = tr2, fin2
+			} else {
+				diverged = true
+			}
+		}
 		if ok && !diverged && !tr.Unordered {
 			// the last delivery's spawned set (nothing may be pending at the end)
 			for len(tr.Spawned) < len(tr.Order) {
@@ -693,6 +733,14 @@ func sampleCompute(c *pcfg, quiet time.Duration, n int, rnd *rand.Rand) *pcase {
 	seen := map[string]bool{}
 	for i := 0; i < 3*n && len(pc.Traces) < n; i++ {
 		tr, fin, ok := runComputeSchedule(c, quiet, func(depth int, en []string) int { return rnd.Intn(len(en)) })
+		if ok && (tr.Stuck || tr.Unordered) {
+			tr2, fin2, confirmed := confirmComputeTimeout(c, quiet, tr.Order)
+			if confirmed || fin2 != nil {
+				tr, fin = tr2, fin2
+			} else {
+				continue
+			}
+		}
 		if !ok || tr.Unordered {
 			continue
 		}
@@ -772,6 +820,7 @@ func genComputeCases(seed int64, tier string, quiet time.Duration) ([]*pcase, ma
 		stats["schedules_deep"] += len(pc.Traces)
 		stats[fmt.Sprintf("tasks_%d", len(pc.Cfg.Table))]++
 	}
+	stats["load_induced_timeouts"] = loadInducedTimeouts
 	return cases, stats
 }
 
@@ -877,6 +926,8 @@ func computeCoqCase(pc *pcase) string {
 // replayCompute re-runs the recorded completion orders of a case.
 func replayCompute(pc *pcase, quiet time.Duration) *pcase {
 	out := &pcase{Cfg: pc.Cfg}
+	timeoutScale = confirmScale // a replay is a single schedule: be patient from the start
+	defer func() { timeoutScale = 1 }()
 	for _, t := range pc.Traces {
 		want := t.Order
 		tr, fin, ok := runComputeSchedule(&pc.Cfg, quiet, func(depth int, en []string) int {
